@@ -209,7 +209,7 @@ class Machine:
         self.by_suffix = {}
         self._index()
         self.resolve_cache = {}
-        from . import models_std, models_more, models_env
+        from . import models_std, models_more, models_env, models_extra
         self.models = {}
         self.models.update(models_std.MODELS)
         self.models.update(models_env.MODELS)
